@@ -57,6 +57,12 @@ def _conv_text(s):
         return f"code({s['n']})"
     if cust == "dflt":
         return None          # the map's "default" converter: <name> without a converter
+    if cust == "late":
+        return f"late({s['n']})"
+    if c == "any":
+        # AnyConverter: "Items can either be Python identifiers or strings"
+        plain = lambda i: i.isidentifier() and i.lower() not in ("true", "false", "none", "nan", "inf", "infinity")
+        return "any(" + ", ".join(i if plain(i) else '"' + i + '"' for i in s["items"]) + ")"
     base = rt._conv_text(s)
     extra = []
     if s.get("haslo"):
@@ -298,7 +304,7 @@ def build_xmap(cfg):
     conv = custom_converters()
     if cfg["map"].get("dflt") == "int":
         conv["default"] = IntegerConverter
-    facs = objs
+    facs = objs[:-1] if cfg.get("late") else objs
     if cfg.get("via") == "submount":
         from werkzeug.routing import Submount
         facs = [Submount("/sm", objs[:1]), Submount("/sm/", objs[1:])]
@@ -309,6 +315,11 @@ def build_xmap(cfg):
         from werkzeug.routing import RuleTemplate
         facs = [RuleTemplate(objs)(name="usr")]
     m = Map(facs, strict_slashes=cfg["map"]["strict"], merge_slashes=cfg["map"]["merge"], host_matching=hm, converters=conv)
+    if cfg.get("late"):
+        # Map.converters: "This can be modified after the class was created, but will only affect rules added after the
+        # modification."  The last rule uses a converter registered after the map was created.
+        m.converters["late"] = conv["code"]
+        m.add(objs[-1])
     if cfg.get("via"):
         # the factories put copies into the map: find them by their (unique) endpoints
         byep = {}
@@ -398,7 +409,7 @@ def run_ops(arg):
     """(cfg, [op dict]) -> [cfg line, op lines...]; executed in a worker process.  op dicts:
     {op: match, path, method, wsarg} | {op: allowed, path} | {op: test, path, method} |
     {op: dispatch, path, method, catch, view} | {op: gethost, none, dp} | {op: expecting, ep, names} |
-    {op: iter, all, ep} | {op: build, ep, vals: {name: value}, ext} | {op: bindsub, sub}"""
+    {op: iter, all, ep} | {op: build, ep, vals: {name: value}, ext, [scheme]} | {op: bindsub, sub} | {op: addbound}"""
     from werkzeug.routing import BuildError
 
     cfg, ops = arg
@@ -448,10 +459,20 @@ def run_ops(arg):
             except KeyError:
                 res = []
             ln.update(x={"all": op["all"], "ep": op["ep"], "res": res})
-        elif k == "build":
-            x = {"ep": op["ep"], "vals": [dict(name=n, **typed(v)) for n, v in sorted(op["vals"].items())], "ext": op["ext"], "url": [], "ok": True}
+        elif k == "addbound":
+            from werkzeug.routing import Map as _Map
+
+            raised = ""
             try:
-                x["url"] = cps(ad.build(op["ep"], dict(op["vals"]), force_external=op["ext"]))
+                _Map().add(next(o for o in objs if o is not None))
+            except Exception as e:
+                raised = type(e).__name__
+            ln.update(raised=raised)
+        elif k == "build":
+            x = {"ep": op["ep"], "vals": [dict(name=n, **typed(v)) for n, v in sorted(op["vals"].items())], "ext": op["ext"],
+                 "scheme": cps(op.get("scheme", "")), "url": [], "ok": True}
+            try:
+                x["url"] = cps(ad.build(op["ep"], dict(op["vals"]), force_external=op["ext"], url_scheme=op.get("scheme") or None))
             except BuildError:
                 x["ok"] = False
             ln.update(x=x)
@@ -717,6 +738,8 @@ def probe_ops(rng, cfg, paths, full=False, methods=("GET", "POST", "HEAD", "PUT"
         ops.append(dict(op="gethost", **g))
     if cfg["map"]["hm"]:
         ops.append({"op": "bindsub", "sub": "api"})
+    if rng.random() < 0.3:
+        ops.append({"op": "addbound"})
     ops += build_ops(rng, cfg)
     return ops
 
@@ -755,5 +778,6 @@ def build_ops(rng, cfg):
             if r["host"] and s is r["host"][0]:
                 vals[s["name"]] = {"int": 12, "string": "bob", "any": s["items"][0] if s["items"] else "bob"}.get(c, "bob")
         if ok:
-            ops.append({"op": "build", "ep": r["endpoint"], "vals": vals, "ext": rng.random() < 0.4})
+            ops.append({"op": "build", "ep": r["endpoint"], "vals": vals, "ext": rng.random() < 0.4,
+                        "scheme": rng.choice(["", "", "", "https", "http"])})
     return ops
